@@ -242,7 +242,7 @@ func cmdCheck(args []string) {
 		}
 	}
 	if cfg.ImmutableScan {
-		for _, o := range g.immutableScan() {
+		for _, o := range append(g.immutableScan(), g.publishedScan()...) {
 			if !notClaimed[baseName(o.Name)] || *update {
 				obs = append(obs, o)
 			}
@@ -711,6 +711,152 @@ func (g *Gen) atomicScan() []*Oblig {
 			o.Res = &SolveResult{Status: "unsat", Solver: "access-scan", Output: fmt.Sprintf("%d uses, all as the address argument of sync/atomic calls", n)}
 		} else {
 			o.Res = &SolveResult{Status: "sat", Solver: "access-scan", Output: "non-atomic access: " + strings.Join(bad, "; ")}
+		}
+		out = append(out, o)
+	}
+	return out
+}
+
+// publishedScan: for `publishedby T.f T.flag via F...`, every load of field f of a T in the package must be
+// dominated, inside its function, by the true branch of a test of flag.Load() on the same object, or by a
+// call of one of the listed functions with the same object as receiver; the function handed to
+// sync.Once.Do that fills the field (declared `onceonly`) is exempt. One obligation per directive.
+func (g *Gen) publishedScan() []*Oblig {
+	var out []*Oblig
+	for _, d := range g.cs.PublishedBy {
+		sp := g.pkgs[d[0]]
+		if sp == nil {
+			continue
+		}
+		split := func(tf string) (string, string) {
+			j := strings.LastIndex(tf, ".")
+			if j < 0 {
+				return tf, ""
+			}
+			return tf[:j], tf[j+1:]
+		}
+		tname, fname := split(d[1])
+		_, flag := split(d[2])
+		obj := sp.Pkg.Scope().Lookup(tname)
+		if obj == nil {
+			continue
+		}
+		via := map[string]bool{}
+		for _, f := range d[3:] {
+			via[f] = true
+		}
+		once := map[string]bool{}
+		for _, f := range g.cs.OnceOnly {
+			if i := strings.Index(f, "|"); i >= 0 {
+				once[f[i+1:]] = true
+			} else {
+				once[f] = true
+			}
+		}
+		isField := func(v ssa.Value, name string) (ssa.Value, bool) {
+			fa, ok := v.(*ssa.FieldAddr)
+			if !ok || !types.Identical(deref(fa.X.Type()), obj.Type()) {
+				return nil, false
+			}
+			st, _ := isStruct(obj.Type())
+			if st.Field(fa.Field).Name() != name {
+				return nil, false
+			}
+			return fa.X, true
+		}
+		var bad []string
+		n := 0
+		for _, fn := range g.funcs {
+			if fn.Pkg != sp || fn.Blocks == nil {
+				continue
+			}
+			f := g.prog.Fset.File(fn.Pos())
+			if f == nil || strings.HasPrefix(fn.Name(), "__vc_") || strings.Contains(f.Name(), "zz_verif_") || strings.HasSuffix(f.Name(), "_test.go") {
+				continue
+			}
+			if once[fn.RelString(sp.Pkg)] {
+				continue
+			}
+			// reads of the field, per object expression
+			type read struct {
+				b   *ssa.BasicBlock
+				idx int
+				in  ssa.Instruction
+			}
+			reads := map[ssa.Value][]read{}
+			for _, b := range fn.Blocks {
+				for i, in := range b.Instrs {
+					if u, ok := in.(*ssa.UnOp); ok && u.Op == token.MUL {
+						if x, ok := isField(u.X, fname); ok {
+							reads[x] = append(reads[x], read{b, i, in})
+						}
+					}
+				}
+			}
+			for x, rs := range reads {
+				// must-analysis: "x is known published" at block entry. Generated by a call of a listed
+				// function with receiver x, and on the true edge of `if x.flag.Load()`.
+				genAt := map[*ssa.BasicBlock]int{} // first instruction index after which it holds
+				trueEdge := map[*ssa.BasicBlock]bool{}
+				for _, b := range fn.Blocks {
+					genAt[b] = -1
+					for i, in := range b.Instrs {
+						switch in := in.(type) {
+						case *ssa.Call:
+							if cal := in.Call.StaticCallee(); cal != nil && via[cal.RelString(sp.Pkg)] && len(in.Call.Args) > 0 && in.Call.Args[0] == x && genAt[b] < 0 {
+								genAt[b] = i
+							}
+						case *ssa.If:
+							if c, ok := in.Cond.(*ssa.Call); ok && len(c.Call.Args) > 0 {
+								if cal := c.Call.StaticCallee(); cal != nil && strings.HasSuffix(cal.String(), ").Load") {
+									if y, ok := isField(c.Call.Args[0], flag); ok && y == x {
+										trueEdge[b] = true
+									}
+								}
+							}
+						}
+					}
+				}
+				in := map[*ssa.BasicBlock]bool{}
+				for _, b := range fn.Blocks {
+					in[b] = b.Index != 0
+				}
+				for changed := true; changed; {
+					changed = false
+					for _, b := range fn.Blocks {
+						if b.Index == 0 {
+							continue
+						}
+						v := true
+						for _, p := range b.Preds {
+							outP := in[p] || genAt[p] >= 0
+							if trueEdge[p] && len(p.Succs) == 2 && p.Succs[0] == b && p.Succs[1] != b {
+								outP = true
+							}
+							v = v && outP
+						}
+						if v != in[b] {
+							in[b] = v
+							changed = true
+						}
+					}
+				}
+				for _, r := range rs {
+					n++
+					if in[r.b] || genAt[r.b] >= 0 && genAt[r.b] < r.idx {
+						continue
+					}
+					pos := g.prog.Fset.Position(r.in.Pos())
+					bad = append(bad, fmt.Sprintf("%s (%s:%d)", fn.RelString(sp.Pkg), filepath.Base(pos.Filename), pos.Line))
+				}
+			}
+		}
+		sort.Strings(bad)
+		o := &Oblig{Name: fmt.Sprintf("%s.%s#published[%s]", sp.Pkg.Name(), tname, fname), Func: tname, Kind: "published", Label: fname}
+		if len(bad) == 0 && n > 0 {
+			o.Res = &SolveResult{Status: "unsat", Solver: "read-scan", Output: fmt.Sprintf("%d reads, each after %s was seen set or after %s", n, d[2], strings.Join(d[3:], " / "))}
+		} else {
+			o.Res = &SolveResult{Status: "sat", Solver: "read-scan", Output: "read without synchronisation: " + strings.Join(bad, "; ")}
 		}
 		out = append(out, o)
 	}
